@@ -93,7 +93,7 @@ func execAll() {
 		}
 	}()
 	// the GnoVM, in-process
-	vm := minigo.NewGnoVM("/repo")
+	vm := minigo.NewGnoVM(minigo.RepoDir())
 	gnoRes := make([]minigo.Outcome, len(units))
 	gnoDetail := make([]string, len(units))
 	for k, u := range units {
